@@ -8,6 +8,7 @@ From Coq Require Import ZArith QArith Reals List Bool Lia.
 From ADV Require Import Base.Num C13.Model C13.Spec C13.Spec2 C13.ProofsGlue C13.ProofsDrivers C13.ProofsTables C13.ProofsAnchors C13.ProofsAnchors2.
 From ADV Require Import C13.Spec3 C13.ProofsAnchors3.
 From ADV Require Import C13.Spec4 C13.Model4 C13.ProofsAnchors4.
+From ADV Require Import C13.Spec6 C13.ProofsAnchors6.
 Import ListNotations.
 Local Open Scope R_scope.
 
@@ -238,3 +239,58 @@ Proof. exact zeta_small_window_needed. Qed.
 (* non-trivial instances: the order test at 26 / 27, an enclosure of zeta(2, 1) with 3 terms *)
 Example polygamma_order_test_26_27 : pg_use_log_order 26 = false /\ pg_use_log_order 27 = true.
 Proof. split; reflexivity. Qed.
+
+(* ---- (7) round 6: accuracy RELATIVE TO THE RESULT where the result is near zero ---- *)
+(* Integer-order I_n(x), every n, x >= 0, K beyond the ratio test: the sum of the power series lies between the partial sum (in its
+   linear-size nested form) and partial sum + geometric tail bound.  Certified reference of BesselI(n, x) at integer order ... *)
+Theorem BesselI_integer_order_series_enclosure : forall I : nat -> R -> R, is_bessel_I I ->
+  forall n x K, 0 <= x -> bessel_q n x K < 1 ->
+  bessel_partial_nest n x K <= I n x <= bessel_partial_nest n x K + bessel_rad n x K.
+Proof. exact bessel_nest_enclosure. Qed.
+(* ... in the shape of the anchor goals: |I_n(x) - observed| is bounded by what Coq-Interval certifies per anchor ... *)
+Theorem BesselI_integer_order_anchor_sound : forall I : nat -> R -> R, is_bessel_I I ->
+  forall n x K obs, 0 <= x -> bessel_q n x K < 1 ->
+  Rabs (I n x - obs) <= Rabs (bessel_partial_nest n x K - obs) + bessel_rad n x K.
+Proof. exact bessel_nest_abs. Qed.
+(* ... and of LogBesselI(n, x) = ln I_n(x), with the tail bound RELATIVE to the partial sum: for n = 0 and tiny x this is the reference
+   of ln I_0(x) = x^2/4 - ..., a result near zero that the code obtains as LogAdd(2 ln x - ln 4 + ..., 0) *)
+Theorem LogBesselI_integer_order_anchor_sound : forall I : nat -> R -> R, is_bessel_I I ->
+  forall n x K obs, 0 <= x -> bessel_q n x K < 1 -> 0 < bessel_partial_nest n x K ->
+  Rabs (ln (I n x) - obs) <= Rabs (ln (bessel_partial_nest n x K) - obs) + bessel_rad n x K / bessel_partial_nest n x K.
+Proof. exact bessel_nest_log_abs. Qed.
+Theorem BesselI_nested_form_is_partial_sum : forall n x K, bessel_partial n x K = bessel_partial_nest n x K.
+Proof. exact bessel_partial_nest_eq. Qed.
+(* the text of LogAdd / LogSub under the standard model of floating-point arithmetic (each of the four operations - , exp, log1p, +
+   returns its exact result times 1 + delta, |delta| <= u; no underflow): the computed value is within la_bound / ls_bound of the exact
+   one, for ALL finite a <= b (resp. all b < a that the roundings keep separated).  la_bound = u |result| + ~u (3 + |a-b|) e^(a-b):
+   relative to the result up to the conditioning of the log1p term -- NOT an absolute bound: at (a, b) = (-40, 0) it is 50 u |result|. *)
+Theorem LogAdd_rounding_error_relative_to_result : forall u a b d1 d2 d3 d4, 0 <= u < 1 ->
+  Rabs d1 <= u -> Rabs d2 <= u -> Rabs d3 <= u -> Rabs d4 <= u -> a <= b ->
+  Rabs (la_float d1 d2 d3 d4 a b - la_exact a b) <= la_bound u a b.
+Proof. exact logadd_float_error. Qed.
+Theorem LogSub_rounding_error_relative_to_result : forall u a b d1 d2 d3 d4, 0 <= u < 1 ->
+  Rabs d1 <= u -> Rabs d2 <= u -> Rabs d3 <= u -> Rabs d4 <= u ->
+  exp (b - a) * (1 + la_pert u b a) < 1 ->
+  0 < 1 - exp ((b - a) * (1 + d1)) * (1 + d2) /\
+  Rabs (ls_float d1 d2 d3 d4 a b - ls_exact a b) <= ls_bound u a b.
+Proof. exact logsub_float_error. Qed.
+(* the rounding-free instance is the R-model of Model.v, which is ln(e^a + e^b) / ln(e^a - e^b) in either argument order *)
+Theorem LogAdd_float_text_refines_model : forall a b, a <= b ->
+  la_float 0 0 0 0 a b = la_exact a b /\
+  LogAdd (LFin a) (LFin b) = LFin (la_exact a b) /\ LogAdd (LFin b) (LFin a) = LFin (la_exact a b) /\
+  la_exact a b = ln (exp a + exp b).
+Proof. intros a b H. split; [exact (la_float_exact a b)|exact (LogAdd_model_la_exact a b H)]. Qed.
+Theorem LogSub_float_text_refines_model : forall a b, b < a ->
+  ls_float 0 0 0 0 a b = ls_exact a b /\
+  LogSub (LFin a) (LFin b) = LFin (ls_exact a b) /\ ls_exact a b = ln (exp a - exp b).
+Proof. intros a b H. split; [exact (ls_float_exact a b)|exact (LogSub_model_ls_exact a b H)]. Qed.
+(* non-vacuity: binary64 unit roundoff, arguments 40 apart, larger one 0 (result 4.2e-18); separation hypothesis of LogSub; ratio test *)
+Example LogAdd_bound_is_relative_at_tiny_result :
+  la_bound (/ 2 ^ 53) (-40) 0 <= 50 * / 2 ^ 53 * la_exact (-40) 0 /\ la_exact (-40) 0 <= / 10 ^ 17.
+Proof. exact la_bound_tiny_result_example. Qed.
+Example LogSub_separation_satisfiable : exp (-40 - 0) * (1 + la_pert (/ 2 ^ 53) (-40) 0) < 1 /\
+  ls_bound (/ 2 ^ 53) 0 (-40) <= 50 * / 2 ^ 53 * Rabs (ls_exact 0 (-40)).
+Proof. exact ls_sep_example. Qed.
+Example BesselI_series_hypotheses_satisfiable : bessel_q 0 (/ 10 ^ 8) 2 < 1 /\ 0 < bessel_partial 0 (/ 10 ^ 8) 2 /\
+  bessel_rad 0 (/ 10 ^ 8) 2 / bessel_partial 0 (/ 10 ^ 8) 2 <= / 10 ^ 33.
+Proof. exact bessel_q_example. Qed.
